@@ -147,12 +147,18 @@ class Getters(Session):
             return 'false'
         seen = {}
         first_solve = None
+        exceeded = False
         checks = []
         for r, raw in zip(obs['ops'], obs['raw']):
             if r['op'][0] == 'solve':
                 if r['seen'][0] != 'ok':
                     return 'false'
                 seen = {}
+                # did the scripted clock run past the limit of this solve?  (then 'Timeout' is the right text)
+                c = r.get('clock') or []
+                start, end = (c[0], c[-1]) if len(c) == 3 else (obs.get('t0', 0), c[-1] if c else 0)
+                lim = r['op'][1] if len(r['op']) > 1 else None
+                exceeded = lim is not None and (end - start) > round(lim * 1e6)
                 if not inp['bf']:
                     ov = objective_values(r)
                     if first_solve is None:
@@ -171,7 +177,7 @@ class Getters(Session):
                     if m is not None:
                         checks.append('(mon_valid %s %s)' % (lpcommon.head(inp), C.czlist(m)))
                     # a run without time-limit trouble must not flip between Timeout and a result
-                    if 'Timeout' in r['seen'][1]:
+                    if 'Timeout' in r['seen'][1] and not exceeded:
                         return 'false'
         return '(%s)' % ' && '.join(checks[:3] or ['true'])
 
